@@ -52,13 +52,18 @@ def _core(B, model, Mor, n, cplx=False, centred=True):
     if k > 1:
         B.ge("(d) explained variance non-increasing", ev[:-1], ev[1:], products=True)
     R = Mor - S @ ctranspose(V)
-    B.eq("(e) S^H (M - S V^H) == 0", ctranspose(S) @ R, np.zeros((k, Mor.shape[1])))
+    B.eq("(e) S^H (M - S V^H) == 0", ctranspose(S) @ R, np.zeros((k, Mor.shape[1])), scale_of=[S, Mor])
 
 
-def h_eof(B, cls="EOF", n=4, p=2, k=2, flags=None, weights=False, layout="2d", solver="full"):
+def h_eof(B, cls="EOF", n=4, p=2, k=2, flags=None, weights=False, layout="2d", solver="full", witness_scale=None):
     flags = dict(flags or {})
     cplx = cls == "ComplexEOF"
     X, dim, fdims = M.make_input(B, layout, n, p, cplx, flags)
+    if witness_scale:
+        # same symbolic generality; the WITNESS sits at the edge of the property's range of scales (1e-8 .. 1e8)
+        nm = X.name
+        X = X * float(witness_scale)
+        X.name = nm
     w = M.make_weights(B, X, fdims) if weights else None
     Mor, labels = oracle_matrix(X, "time", center=flags.get("center", True), standardize=flags.get("standardize", False), use_coslat=flags.get("use_coslat", False), weights=w, B=B)
     model = M.single(cls, n_modes=k, solver=solver, **flags)
@@ -150,6 +155,9 @@ def configs(tier):
                     if tier == "quick" and (n, p, k) in ((4, 1, 1), (4, 3, 1)) and (fl or w):
                         continue
                     add("h_eof", f"{cls}|n{n}p{p}k{k}|{keyof(fl)}|w{int(w)}", cls=cls, n=n, p=p, k=k, flags=fl, weights=w)
+    for sc in (1e-8, 1e8):
+        add("h_eof", f"EOF|n4p3k2|witness scale {sc:g}", cls="EOF", n=4, p=3, k=2, witness_scale=sc)
+    add("h_eof", "EOF|n4p3k2|standardize|witness scale 1e8", cls="EOF", n=4, p=3, k=2, flags={"standardize": True}, witness_scale=1e8)
     if tier == "quick":
         # wide and rank-deficient: n < p, all n modes requested, centring makes the last singular value exactly zero
         add("h_eof", "EOF|n3p4k3|default|w0", cls="EOF", n=3, p=4, k=3, flags={}, weights=False)
